@@ -157,6 +157,9 @@ func runNames(c *core.Ctx, i int, st *struct{ pairs, sep int }) {
 	if uSnp != bucketBase+snp || uTdx != bucketBase+tdx {
 		c.Oracle(i, entryNames, "url-is-not-bucket-plus-name", gen, "got %q / %q", uSnp, uTdx)
 	}
+	if st.pairs == 1 {
+		c.Sample(map[string]any{"family": "names", "m": lowerHex(m), "related": rel, "snp": snp, "tdx": tdx, "url": uSnp})
+	}
 	c.Cell("names|len=%s|pair=%s", lenClass, rel)
 	c.End(i)
 }
